@@ -209,10 +209,10 @@ CHECKS["C02"] = {
 }
 
 CHECKS["C05"] = {
-    "tests": [T("TestC05", 80, 1200)],
+    "tests": [T("TestC05", 80, 1200), T("TestC05Dir", 80, 1200)],
     "level": "fault_enumeration",
     "technique": "crash-point enumeration: every prefix of the journaled persistence effects (block writes incl. fetched blocks, cache puts/deletes) of generated histories (rapid) is materialised as a fresh offline peer and recovered; oracle = acknowledged subset, written superset, ancestry closure, model replay, identity, writability",
-    "rule": "rapid draws a store type, 0-2 other writers and up to 8 (quick) / 12 (thorough) steps on the replica under test: runs of local writes, remote writes, merges (manual Sync of another writer's heads; one case in six ends with two remote writers' concurrent branches merged in separate rounds and nothing local afterwards), clean restarts (instance closed, recreated on the same recorded disk, Load(-1): everything acknowledged so far must be there, identity unchanged). Every persistence effect of the replica is journaled in issue order with acknowledgement marks (write call returned; replicated event observed). Then every prefix of the journal after database creation (all of them up to 40 effects, otherwise first, last, the last 12 and 12 drawn ones) is materialised: a fresh offline kubo node holding exactly those blocks and a disk holding exactly those datastore writes; a new instance with the same peer key opens the database and Load(-1)s it. Oracle per crash point: identity unchanged; recovered entries include everything acknowledged before the cut, are all entries that were really written, are closed under next; Values() == (time,id) order; view == LWW replay of the recovered entries; a new write succeeds. non-trivial = a cut falls between an entry's block write and the head put, or the history contains a replicated batch; distinct = SHA-1 of the case JSON",
+    "rule": "rapid draws a store type, 0-2 other writers and up to 8 (quick) / 12 (thorough) steps on the replica under test: runs of local writes, remote writes, merges (manual Sync of another writer's heads; one case in six ends with two remote writers' concurrent branches merged in separate rounds and nothing local afterwards), clean restarts (instance closed, recreated on the same recorded disk, Load(-1): everything acknowledged so far must be there, identity unchanged). Every persistence effect of the replica is journaled in issue order with acknowledgement marks (write call returned; replicated event observed). Then every prefix of the journal after database creation (all of them up to 40 effects, otherwise first, last, the last 12 and 12 drawn ones) is materialised: a fresh offline kubo node holding exactly those blocks and a disk holding exactly those datastore writes; a new instance with the same peer key opens the database and Load(-1)s it. Oracle per crash point: identity unchanged; recovered entries include everything acknowledged before the cut, are all entries that were really written, are closed under next; Values() == (time,id) order; view == LWW replay of the recovered entries; a new write succeeds. non-trivial = a cut falls between an entry's block write and the head put, or the history contains a replicated batch; TestC05Dir (the statement's clean cycles on real directories): the instance under test lives on a real directory with the library's own leveldb cache and on-disk keystore and holds one or two databases of the same name (differing by type / write list); rapid draws 2-9 steps of local write runs, runs authored elsewhere and replicated in by Sync, close+reopen of one database while the instance stays up, and full restarts (instance closed, a new one on the same directory, every database reopened and Load(-1)ed; the last step is always a restart). After every reopen: the instance identity is the same, every database lists exactly the entries acknowledged to it (none missing, none of its sibling's), shows the same state as before the close, accepts a new write and signs it with the same identity; non-trivial (Dir) = at least two restarts and a replicated batch; distinct = SHA-1 of the case JSON",
     "level_text": "All crash points of each generated history are enumerated when the journal has at most 40 effects (the usual case); longer journals are sampled. Histories themselves are sampled.",
     "level_note": "Assumption from the statement: an effect is durable once its call returns, effects become durable in issue order. Disk = recorded datastore behind cache.Interface and the keystore datastore; real leveldb close/reopen cycles are exercised by C18.",
     "design_ref": "5/C05",
